@@ -132,7 +132,10 @@ class Fixture:
 # from too deep to comfortably shallow): somewhere in between the target's own frame is the one that does not fit
 CALLER = 'int dn;\nmixed setn(string s) { dn = to_int(s); return dn; }\n' + '\n'.join(
     'mixed deep_%s(object o, int n) { mixed p0, p1, p2, p3; if (n > 0) return deep_%s(o, n - 1); return o->%s(); }\nmixed dp_%s(string path) { return deep_%s(load_object(path), dn); }' % (fn, fn, fn, fn, fn) for fn in FN + ['f9']) + '\n'
-CALLER += 'void create() { seteuid(getuid()); }\n' + '\n'.join('mixed co_%s(string path) { return load_object(path)->%s(); }' % (fn, fn) for fn in FN + ['f9']) + '\n'
+# after the call the caller looks at itself: one of its own variables and a call to one of its own functions (a call that is
+# refused, or one that fails, must leave the caller's frame as it was)
+CALLER += 'string cmark = "CM";\nint cself() { return 4711; }\nvoid create() { seteuid(getuid()); }\n' + '\n'.join(
+    'mixed co_%s(string path) { mixed r; r = load_object(path)->%s(); if (cmark != "CM" || cself() != 4711) rec("SELFBAD co_%s"); return r; }' % (fn, fn, fn) for fn in FN + ['f9']) + '\n'
 
 
 def _calls(rng, fx, n, deep=False):
@@ -341,9 +344,17 @@ def _expect(fxm, call):
     return None
 
 
+def _selfbad(res):
+    for e in res.events:
+        if e.kind == 'R' and e.rest.startswith('SELFBAD '):
+            return [Violation(PROP, 'caller', 'after a call_other the calling object /c/caller no longer finds its own variable or function (%s)' % e.rest, PROP + '/caller-frame/not-its-own-after-call')]
+    return []
+
+
 def check_base(plan, res):
     v = generic_crash_violations(PROP, res)
     if v: return v
+    v += _selfbad(res)
     logerr = [e.rest for e in res.events if e.kind == 'R' and e.rest.startswith('LOGERR ') and 'Warning:' not in e.rest]
     if logerr:
         return [Violation(PROP, 'harness', 'a generated program does not compile: %s' % logerr[0][:200], PROP + '/harness/compile')]
@@ -388,6 +399,7 @@ def check_base(plan, res):
 def check_point(plan, res, info):
     v = generic_crash_violations(PROP, res)
     if v: return v
+    v += _selfbad(res)
     k = plan.meta.get('only')
     if k is None: return v
     cold = _outcomes(res).get(k)
